@@ -128,6 +128,42 @@ theorem afifo_capacity (k : Nat) (b : Bool) (z : α) (hk : 1 ≤ k) (ins : List 
   rw [← ha, ← hd]
   exact capacity_aux hi
 
+/-! ### Progress: "after the input has been stable for long enough the output reflects it" -/
+
+/-- **afifo_eventually_readable** (unbuffered).  Take any schedule `x`, then any continuation `y` that
+    contains at least two read-clock edges (no assumption on the write clock, the clock ratio or the
+    resolutions).  Then every token accepted during `x` has been handed over, or `source.valid` is high. -/
+theorem afifo_eventually_readable (k : Nat) (z : α) (hk : 1 ≤ k) (x y : List (AFIn α))
+    (hy : 2 ≤ readTicks y) :
+    (accepted k false z (afInit k z) x).length ≤ (delivered k false z (afInit k z) (x ++ y)).length ∨
+      srcValid false (runFrom k false z (afInit k z) (x ++ y)) = true := by
+  obtain ⟨g1, g2, h1, ha, hg, h2, hd⟩ := run_split_facts k false z hk x y
+  have hp := (pr2_progress z hk g1.acc.length y _ _ h1 (le_refl _)).2.2 hy
+  rw [← hg] at hp
+  rw [← ha, ← hd, List.length_take, Nat.min_eq_left (dcount_le_acc h2)]
+  cases hr : ireadable (runFrom k false z (afInit k z) (x ++ y))
+  · left
+    have hC := not_ireadable_eq h2 hr
+    have hbv : (runFrom k false z (afInit k z) (x ++ y)).bval = false := by
+      cases hv : (runFrom k false z (afInit k z) (x ++ y)).bval
+      · rfl
+      · have := (h2.buf hv).1; simp at this
+    unfold dcount; rw [hbv]; simp; omega
+  · right; simpa [srcValid] using hr
+
+/-- The buffered variant needs one more read-clock edge (the output register). -/
+theorem afifo_eventually_readable_buffered (k : Nat) (z : α) (hk : 1 ≤ k) (x y : List (AFIn α))
+    (hy : 3 ≤ readTicks y) :
+    (accepted k true z (afInit k z) x).length ≤ (delivered k true z (afInit k z) (x ++ y)).length ∨
+      srcValid true (runFrom k true z (afInit k z) (x ++ y)) = true := by
+  obtain ⟨g1, g2, h1, ha, hg, h2, hd⟩ := run_split_facts k true z hk x y
+  have hp := (buf_progress z hk g1.acc.length y _ _ h1 (le_refl _)).2.2.2 hy
+  rw [← hg, ← runFrom_append] at hp
+  rw [← ha, ← hd, List.length_take, Nat.min_eq_left (dcount_le_acc h2)]
+  rcases hp with hv | hd'
+  · right; simpa [srcValid] using hv
+  · left; exact hd'
+
 /-! ### Non-vacuity: a concrete schedule with coincident edges and both resolutions, on which tokens move -/
 
 example :
